@@ -438,12 +438,9 @@ func (c *Client) setL1Head(ctx context.Context) error {
 	var maxFinalisedNumber uint64
 	var maxFinalisedHead *StateUpdate
 	for l1BlockNumber := range c.nonFinalisedLogs {
-		if l1BlockNumber <= finalisedHeight {
-			if l1BlockNumber >= maxFinalisedNumber {
-				maxFinalisedNumber = l1BlockNumber
-				maxFinalisedHead = c.nonFinalisedLogs[maxFinalisedNumber]
-			}
-			delete(c.nonFinalisedLogs, l1BlockNumber)
+		if l1BlockNumber <= finalisedHeight && l1BlockNumber >= maxFinalisedNumber {
+			maxFinalisedNumber = l1BlockNumber
+			maxFinalisedHead = c.nonFinalisedLogs[maxFinalisedNumber]
 		}
 	}
 
@@ -462,6 +459,13 @@ func (c *Client) setL1Head(ctx context.Context) error {
 			"setting l1 head for block %d and state root %s: %w",
 			head.BlockNumber, head.StateRoot.String(), err,
 		)
+	}
+	// Finalised logs are dropped only once the head is recorded, so that a failed
+	// write is retried by the next call instead of losing the head.
+	for l1BlockNumber := range c.nonFinalisedLogs {
+		if l1BlockNumber <= finalisedHeight {
+			delete(c.nonFinalisedLogs, l1BlockNumber)
+		}
 	}
 	c.listener.OnNewL1Head(head)
 	c.logger.Info(
